@@ -42,7 +42,8 @@ import (
 //	       element (of the virtual root at top level)
 //	vloop: <div data-m=M v-for="(vi, Var) in List">tM-{{ vi }} kids</div> over a list of plain
 //	       values (VLists; nil allowed): the bare loop variable Var shadows the global of that name
-//	Pre / Once on a later chain member: the member also carries v-pre / v-once
+//	Pre / Once on a later chain member: the member also carries v-pre / v-once; Once together with
+//	       For (any member): the chosen member renders its first instance only
 //
 // An elif / else node that does not continue a chain is an orphan.
 type Node struct {
@@ -362,6 +363,7 @@ type stats struct {
 	laterDeco        bool          // an unchosen member after the chosen one carries v-pre / v-once / v-for
 	chosenN          map[*Node]int // how often each member was the chosen one
 	onceRepeat       []*Node       // v-once members chosen more than once: C16's subject, not asserted here
+	forOnce          bool          // a chosen member carrying v-for and v-once
 	comps            int           // comp nodes evaluated
 	compShort        bool
 	compVariants     map[string]bool
@@ -402,8 +404,8 @@ func (m *model) truthy(cond string, sc scope) bool {
 		v, found = b, true
 		m.st.shadowed = true
 		if g, ok := m.c.Vars[cond]; ok {
-			gt, _ := g.Truthy()
-			bt, _ := b.Truthy()
+			gt, _ := valTruthy(g)
+			bt, _ := valTruthy(b)
 			if gt != bt {
 				m.st.shadowOpp = true
 			}
@@ -426,7 +428,7 @@ func (m *model) truthy(cond string, sc scope) bool {
 	if v.K != "bool" {
 		m.st.nonBool = true
 	}
-	t, _ := v.Truthy() // generators only use values whose truthiness is documented
+	t, _ := valTruthy(v) // generators only use values whose truthiness is documented
 	if neg {
 		return !t
 	}
@@ -683,6 +685,12 @@ func (m *model) member(n *Node, sc scope, depth int, inLoop bool) []Out {
 	if n.For > 0 {
 		var out []Out
 		for x := 1; x <= n.For; x++ {
+			if n.Once && x > 1 {
+				// v-once marks the element, not the instance: later iterations of the same element
+				// are skipped (docs/syntax.md: v-once "also works inside v-for loops")
+				m.st.forOnce = true
+				break
+			}
 			out = append(out, Out{ID: n.M, Text: fmt.Sprintf("t%s-%d", n.M, x), Kids: m.eval(n.Kids, sc, depth+1, inLoop, true)})
 		}
 		return out
@@ -919,14 +927,14 @@ func (c *Case) data() map[string]any {
 			}
 			return "no"
 		}
-		return v.Go()
+		return valGo(v)
 	}
 	// globals, stored the way the case's form reads them
 	switch c.Form {
 	case "call-and", "call-or":
 		for k, v := range c.Vars {
 			if v.K != "missing" {
-				d[callNameOf[globalIndex(k)]] = v.Go()
+				d[callNameOf[globalIndex(k)]] = valGo(v)
 			}
 		}
 		d["li"], d["nl"] = []any{1}, []any{}
@@ -945,7 +953,7 @@ func (c *Case) data() map[string]any {
 	case "hyphen":
 		for k, v := range c.Vars {
 			if v.K != "missing" {
-				d["g-"+k] = v.Go()
+				d["g-"+k] = valGo(v)
 			}
 		}
 	case "dotidx", "bracket":
@@ -958,7 +966,7 @@ func (c *Case) data() map[string]any {
 		in := map[string]any{}
 		for k, v := range c.Vars {
 			if v.K != "missing" {
-				in[k] = v.Go()
+				in[k] = valGo(v)
 			}
 		}
 		d["gm"] = map[string]any{"in": in}
